@@ -361,6 +361,14 @@ func main() {
 			wide := strings.Repeat("9", p-s+1) + "." + strings.Repeat("9", s)
 			run(Case{Kind: "parse", P: p, S: s, Text: wide})
 			run(Case{Kind: "parse", P: p, S: s, Text: "0." + strings.Repeat("0", s) + "1"})
+			// exactly 10^p (one digit more than the precision holds) and its neighbours, both signs
+			for _, d := range []int64{-1, 0, 1} {
+				x := new(big.Int).Add(pow10[p], big.NewInt(d))
+				for _, sg := range []string{"", "-"} {
+					run(Case{Kind: "parse", P: p, S: s, Text: sg + refString(x, s)})
+					h.Section("parse-limit", 1)
+				}
+			}
 		}
 	}
 	h.R.Extra["pairs"] = 741
